@@ -133,6 +133,7 @@ def job_dump(job, P, ADE):
     """States of DeltaEnum: run apply_delta on every state, compare with TLC's expectation."""
     from harness import c03_data as D
     iso = job.get("iso", False)
+    rs = job["mode"] == "rs"
     skip, limit = job.get("skip", 0), job.get("limit")
     prog = os.open(job["progress"], os.O_WRONLY | os.O_CREAT, 0o600)
     n = 0
@@ -152,8 +153,9 @@ def job_dump(job, P, ADE):
         base = BASES[st["bi"]]
         delta = bytes(st["delta"])
         dst = st["dst"]
-        # a declared size of 2^24 or more (4+ limbs with a high one set) is decoded in a forked grandchild
-        risky = len(dst) > 4 or (len(dst) == 4 and dst[3] >= 8)
+        # the extension allocates the declared size: from 2^30 on (5 limbs, the fifth >= 4) the call is
+        # made in a forked grandchild straight away instead of being found by bisection after a death
+        risky = rs and (len(dst) > 5 or (len(dst) == 5 and dst[4] >= 4))
         if iso or risky:
             obs = isolated(lambda: decode_obs(P, ADE, base, delta))
             out = bytes.fromhex(obs["hex"]) if obs.get("k") == "bytes" and "hex" in obs else None
